@@ -23,7 +23,19 @@ func loadKey(v ssa.Value) (key, field string, ok bool) {
 		}
 		if fa, isFA := x.X.(*ssa.FieldAddr); isFA {
 			f := fieldRefOfAddr(fa)
-			return "load|" + f + "|" + vstr(fa.X) + "#" + fa.X.Name(), f, true
+			return "load|" + f + "|" + baseKey(fa.X), f, true
+		}
+		// local variable cells (address-taken or captured locals): eligible when every store to the
+		// cell is in the function that loads it
+		switch a := x.X.(type) {
+		case *ssa.Alloc:
+			if cellLocalOnly(a, x.Parent()) {
+				return "cell|" + a.Name(), "", true
+			}
+		case *ssa.FreeVar:
+			if cellLocalOnly(a, x.Parent()) {
+				return "cell|^" + a.Name(), "", true
+			}
 		}
 	case *ssa.Lookup:
 		if f, base, isL := loadedField(x.X); isL {
@@ -31,7 +43,7 @@ func loadKey(v ssa.Value) (key, field string, ok bool) {
 			if x.CommaOk {
 				ck = ",ok"
 			}
-			return "lookup|" + f + "|" + base.Name() + "|" + keyOperand(x.Index) + ck, f, true
+			return "lookup|" + f + "|" + baseKey(base) + "|" + keyOperand(x.Index) + ck, f, true
 		}
 	}
 	return "", "", false
@@ -43,6 +55,45 @@ func keyOperand(v ssa.Value) string {
 		return "rep:" + r
 	}
 	return v.Name() + ":" + vstr(v)
+}
+
+// baseKey names the object a field belongs to: a register, or — for a pointer read from a local
+// cell — the cell's current representative load.
+func baseKey(v ssa.Value) string {
+	if r, ok := loadRep[v]; ok {
+		return "rep:" + r
+	}
+	return v.Name()
+}
+
+// cellLocalOnly: all stores to the cell are made by fn itself (so only fn's own stores can change it
+// while fn runs; a closure that also writes the cell disables the equivalence).
+func cellLocalOnly(cell ssa.Value, fn *ssa.Function) bool {
+	switch a := cell.(type) {
+	case *ssa.Alloc:
+		for _, st := range storesTo(a) {
+			if st.Parent() != fn {
+				return false
+			}
+		}
+		return true
+	case *ssa.FreeVar:
+		b := freeVarBinding(a)
+		al, ok := b.(*ssa.Alloc)
+		if !ok {
+			return false
+		}
+		for _, st := range storesTo(al) {
+			// stores by the parent happen before the closure runs only if the closure is invoked after
+			// the parent is done with the variable; accept cells the closure itself never writes and
+			// that no other closure writes
+			if st.Parent() != al.Parent() {
+				return false
+			}
+		}
+		return true
+	}
+	return false
 }
 
 type availState map[string]string // key -> representative
@@ -85,7 +136,31 @@ func (s availState) killField(f string) {
 	}
 }
 
+// killCell: a store to a local cell invalidates its loads and every field load based on them.
+func (s availState) killCell(name string) {
+	rep, had := s["cell|"+name]
+	delete(s, "cell|"+name)
+	if had {
+		for k := range s {
+			if strings.HasSuffix(k, "|rep:"+rep) || strings.Contains(k, "|rep:"+rep+"|") {
+				delete(s, k)
+			}
+		}
+	}
+}
+
+// killAll: lock operations, blocking operations and lock-taking callees invalidate shared memory;
+// local cells are unaffected.
 func (s availState) killAll() {
+	for k := range s {
+		if strings.HasPrefix(k, "cell|") {
+			continue
+		}
+		delete(s, k)
+	}
+}
+
+func (s availState) killEverything() {
 	for k := range s {
 		delete(s, k)
 	}
@@ -121,6 +196,12 @@ func computeLoadEquiv(p *Prog, sums *Summaries, lf *LockFacts, fn *ssa.Function)
 			case *ssa.Store:
 				if fa, ok := x.Addr.(*ssa.FieldAddr); ok {
 					st.killField(fieldRefOfAddr(fa))
+				}
+				switch a := x.Addr.(type) {
+				case *ssa.Alloc:
+					st.killCell(a.Name())
+				case *ssa.FreeVar:
+					st.killCell("^" + a.Name())
 				}
 			case *ssa.MapUpdate:
 				if f, _, ok := loadedField(x.Map); ok {
@@ -172,7 +253,7 @@ func computeLoadEquiv(p *Prog, sums *Summaries, lf *LockFacts, fn *ssa.Function)
 			if !ok {
 				continue
 			}
-			out := transfer(b, st, false)
+			out := transfer(b, st, true)
 			for _, s := range b.Succs {
 				if cur, ok := in[s]; ok {
 					m := meetAvail(cur, out)
